@@ -31,6 +31,13 @@ type Stream struct {
 	MaxFrame  int        `json:"max_frame"` // len(rawFrame): 1024000 for ts (fixed in the code), chosen for tcp
 	Bursts    []Burst    `json:"bursts"`
 	Consumers []ConsSpec `json:"consumers"`
+	// websocket-out ("wsout"): Count hub messages of Blk bytes pushed through the hub towards a real websocket
+	// client of /ws/<feed> that reads ReadBurst messages, pauses ReadPauseUs, ... with a receive buffer of Rcvbuf
+	Blk         int `json:"blk,omitempty"`
+	Count       int `json:"count,omitempty"`
+	ReadBurst   int `json:"read_burst,omitempty"`
+	ReadPauseUs int `json:"read_pause_us,omitempty"`
+	Rcvbuf      int `json:"rcvbuf,omitempty"`
 	Obs       *Observed  `json:"obs,omitempty"`
 }
 
@@ -58,6 +65,8 @@ type Observed struct {
 	Raced     string   `json:"raced,omitempty"`     // a hand-off arrived while a consumer was acting: the oracle still applies, the case is not given to the model
 	Err       string   `json:"err,omitempty"`       // the stream did not complete
 	Posted    int      `json:"posted"`
+	Frames    [][]byte `json:"frames,omitempty"`    // wsout: the websocket messages the slow client received
+	FrameLens []int    `json:"frame_lens,omitempty"`
 	TapLens   []int    `json:"tap_lens,omitempty"` // lengths of the hand-offs (kept when the bytes are dropped from a report)
 }
 
@@ -87,7 +96,29 @@ func genBytes(seed uint64, off, n int) []byte {
 	return out
 }
 
+// wsoutInput: Count hub messages of Blk bytes each: 4 marker bytes "VWO:", the index of the message (4 bytes,
+// big endian), then input bytes - Corr/C17.v [wmsg] computes the same
+func (s Stream) wsoutInput() []byte {
+	in := genBytes(s.Seed, 0, s.Blk*s.Count)
+	for k := 0; k < s.Count; k++ {
+		b := in[k*s.Blk:]
+		copy(b, []byte{86, 87, 79, 58, byte(k >> 24), byte(k >> 16), byte(k >> 8), byte(k)})
+	}
+	return in
+}
+
+// wsoutIndex reads the index a piece claims to carry (-1 if it does not start with a marker)
+func wsoutIndex(piece []byte) int {
+	if len(piece) < 8 || piece[0] != 86 || piece[1] != 87 || piece[2] != 79 || piece[3] != 58 {
+		return -1
+	}
+	return int(piece[4])<<24 | int(piece[5])<<16 | int(piece[6])<<8 | int(piece[7])
+}
+
 func (s Stream) total() int {
+	if s.Kind == "wsout" {
+		return s.Blk * s.Count
+	}
 	t := 0
 	for _, b := range s.Bursts {
 		for _, c := range b.Chunks {
@@ -122,14 +153,58 @@ func hx(b []byte) string {
 }
 
 // obsb: small messages travel whole, large ones as length + sparse checksum + both ends
-func obsb(b []byte) string {
-	if len(b) <= 4096 {
+func obsb(b []byte) string { return obsbLimit(b, 4096) }
+
+func obsbLimit(b []byte, limit int) string {
+	if len(b) <= limit || len(b) < 64 {
 		return "(OB " + hx(b) + ")"
 	}
 	return lib.App("OD", lib.N(uint64(len(b))), lib.N(checksum61(b)), hx(b[:32]), hx(b[len(b)-32:]))
 }
 
+// wsoutStarts: for every websocket message received, the index of the hub message it starts with (-1 if it
+// does not start with one)
+func (s Stream) wsoutStarts() []int {
+	out := []int{}
+	for _, f := range s.Obs.Frames {
+		k := wsoutIndex(f)
+		if k >= s.Count {
+			k = -1
+		}
+		out = append(out, k)
+	}
+	return out
+}
+
+func (s Stream) coqWsOut() string {
+	o := s.Obs
+	starts := s.wsoutStarts()
+	evs := []string{}
+	next := 0
+	for _, k := range starts {
+		if k < next { // not forward, or not a hub message: the model cannot follow; the oracle reports it
+			continue
+		}
+		if k > next {
+			evs = append(evs, lib.App("WMiss", lib.Nat(k-next)))
+		}
+		evs = append(evs, "WOffer", "WRest")
+		next = k + 1
+	}
+	if s.Count > next {
+		evs = append(evs, lib.App("WMiss", lib.Nat(s.Count-next)))
+	}
+	frames := []string{}
+	for _, f := range o.Frames {
+		frames = append(frames, obsbLimit(f, 256))
+	}
+	return lib.App("CW", lib.N(s.Seed), lib.N(uint64(s.Blk)), lib.List(evs), lib.List(frames))
+}
+
 func (s Stream) coq() string {
+	if s.Kind == "wsout" {
+		return s.coqWsOut()
+	}
 	o := s.Obs
 	evs := []string{}
 	for _, e := range o.Events {
@@ -164,11 +239,15 @@ func (s Stream) coq() string {
 		}
 		reads = append(reads, lib.List(one))
 	}
-	return lib.Tuple(lib.N(uint64(s.MaxFrame)), lib.List(caps), lib.List(evs), lib.List(tap), lib.List(reads))
+	return lib.App("CS", lib.N(uint64(s.MaxFrame)), lib.List(caps), lib.List(evs), lib.List(tap), lib.List(reads))
 }
 
 func (s Stream) describe() string {
 	var sb strings.Builder
+	if s.Kind == "wsout" {
+		return fmt.Sprintf("wsout stream %q seed=%d: %d hub messages of %d bytes towards a websocket client of /ws/<feed> that reads %d messages then pauses %d us (SO_RCVBUF %d)",
+			s.Name, s.Seed, s.Count, s.Blk, s.ReadBurst, s.ReadPauseUs, s.Rcvbuf)
+	}
 	fmt.Fprintf(&sb, "%s stream %q seed=%d max_frame=%d bursts=", s.Kind, s.Name, s.Seed, s.MaxFrame)
 	for i, b := range s.Bursts {
 		if i > 0 {
@@ -184,6 +263,14 @@ func (s Stream) describe() string {
 
 func genStream(r *lib.Rng, kind string, i int) Stream {
 	s := Stream{Kind: kind, Name: fmt.Sprintf("%s%d", kind, i), Seed: uint64(r.Intn(1 << 20))}
+	if kind == "wsout" {
+		s.Blk = []int{4096, 4096, 1024, 8192}[r.Intn(4)]
+		s.Count = r.Range(600, 1500)
+		s.ReadBurst = r.Range(4, 40)
+		s.ReadPauseUs = r.Range(100, 1500)
+		s.Rcvbuf = []int{16384, 65536}[r.Intn(2)]
+		return s
+	}
 	size := func() int {
 		switch r.Intn(10) {
 		case 0:
@@ -260,6 +347,9 @@ func corpus(tier string) []Stream {
 		{Kind: "ts", Name: "ts-truncation-1300kB", Seed: 68, MaxFrame: 1024000,
 			Bursts:    []Burst{{Chunks: []int{700000, 600000}, GapUs: []int{0, 0}, PauseMs: 40}, {Chunks: []int{500}, GapUs: []int{0}, PauseMs: 10}},
 			Consumers: []ConsSpec{{Cap: 2, Policy: "queue", Hold: 1}}},
+		// hub -> slow local websocket client: thousands of 4 kB messages, far more than it reads
+		{Kind: "wsout", Name: "wsout-slow-client", Seed: 69, Blk: 4096, Count: 3000, ReadBurst: 8, ReadPauseUs: 800, Rcvbuf: 16384},
+		{Kind: "wsout", Name: "wsout-slower-client", Seed: 70, Blk: 4096, Count: 3000, ReadBurst: 30, ReadPauseUs: 300, Rcvbuf: 65536},
 	}
 	return out
 }
